@@ -20,11 +20,22 @@ establishes both for every section of a loaded object (`sec_of_loaded`, `small_o
 * `queries_total`: composition with the loader: on the object a load of ANY byte string (shorter than
   4 GiB) yields, every query of the interface (`TQ.runQuery`: sections looked up by ARBITRARY index and
   made resident against the real stream) returns.
+* `swap_preserves_sec`, `arrange_preserves_sec`: the two MUTATING queries keep the domain: they return, the
+  sections they wrote to are again `Sec` and `Small`, nothing but buffer contents (and `sh_info`) changed, buffers
+  keep their length, no section becomes resident or non-resident.
+* `QInv o` (stream shorter than 4 GiB; every section has `size < d.length` and `size < 2^32` when resident — NO
+  file-bytes clause), `load_qinv` (`load` establishes it), `runQuery_qinv` (EVERY query, `arrange` and `swap`
+  included, returns and preserves it), `runQueries_qinv`, **`queries_any_seq_total`**: after a load of ANY byte
+  string shorter than 4 GiB, ANY finite sequence of queries — mutating and read-only ones freely interleaved,
+  arbitrary arguments — returns without fault.  `runQuery_hdr` / `queries_any_seq_hdr`: no query changes a header
+  field (other than `sh_info`) of any section or the number of sections.
+* `dynNum_qinv`, `steps_any_seq_total`: the same for everything an op line of the protocol does with the object
+  (`Step`: a query, a bare `get_data()`, a version accessor construction reading its count from `.dynamic`).
 * `…_witness`: the faults of the unfixed functions, machine-checked on the models of the unfixed code
   (the accessor families' definitions, which stay the models of the function bodies behind the new
   guards) — one per repaired finding (F7 a–f).
 -/
-import ElfioVerif.Lemmas.TableSafetySwap
+import ElfioVerif.Lemmas.TableSafetyMut
 import ElfioVerif.Props.C01
 import ElfioVerif.Props.C09
 namespace ElfioVerif
@@ -454,6 +465,647 @@ theorem queries_total (o : Obj) (img : Bytes) (kind : StreamKind) (isLazy : Bool
     ∃ res, TQ.runQuery r.obj q = .ok res :=
   runQuery_total r.obj img (C01.load_objInv o img kind isLazy r hl) hlen q
 
+/-! ### queries AFTER mutating queries: an invariant without the file-bytes clause
+
+`arrange_local_symbols` and `swap_symbols` write into the symbol and relocation sections, so C01's invariant
+(`LoadedSec`: a resident buffer IS the file bytes) does not survive them.  The accessor theorems above never needed
+it: their domain is `Sec` ∧ `Small`, which says nothing about contents.  `QInv` is exactly what `runQuery` needs of
+an object; `load` establishes it, EVERY query — `arrange` and `swap` included — preserves it. -/
+
+/-- **swap_preserves_sec**: `swap_symbols(first, second)` with ANY arguments on a `Sec`, `Small` section returns,
+    the section afterwards is `Sec` and `Small`, it is the old section with other buffer CONTENTS and nothing else
+    (size, flags, link, info, entry size, type, offsets, loader flags unchanged), the buffer has the same length
+    and the section neither became resident nor lost its data -/
+theorem swap_preserves_sec (enc : Enc) (b : SecBuf) (hb : Sec b) (hs : Small b) (first second : BitVec 64) :
+    ∃ b', TQ.swapSymbols enc b first second = .ok b' ∧ Sec b' ∧ Small b' ∧ (∃ d, b' = { b with data := d }) ∧
+      b'.data.map List.length = b.data.map List.length := by
+  obtain ⟨b', h, k⟩ := swapSymbols_keep enc b hb hs first second
+  exact ⟨b', h, k.sec, k.small hs, k.eqv, k.dlen⟩
+
+/-- **arrange_preserves_sec**: `arrange_local_symbols` with the `swap_symbols` callback over ANY list of `Sec`,
+    `Small` relocation sections, on a `Sec`, `Small` symbol section with ANY header fields and contents, returns;
+    afterwards the symbol section is `Sec` and `Small` and is the old one up to buffer contents and `sh_info`
+    (same buffer length, same residency); the relocation sections are as many as before, each `Sec`, `Small`,
+    and each the old one at its position up to buffer contents (same length, same residency) -/
+theorem arrange_preserves_sec (enc : Enc) (s : SecBuf) (hs : Sec s) (hsm : Small s) (rels : List SecBuf)
+    (hr : ∀ r ∈ rels, Sec r ∧ Small r) :
+    ∃ s' rels' ret, TQ.arrange (TQ.swapAll enc) s rels = .ok (s', rels', ret) ∧
+      Sec s' ∧ Small s' ∧ (∃ d i, s' = { s with data := d, info := i }) ∧
+      s'.data.map List.length = s.data.map List.length ∧
+      rels'.length = rels.length ∧ (∀ r' ∈ rels', Sec r' ∧ Small r') ∧
+      (∀ (j : Nat) (r' : SecBuf), rels'[j]? = some r' → ∃ r : SecBuf, rels[j]? = some r ∧ (∃ d, r' = { r with data := d }) ∧
+        r'.data.map List.length = r.data.map List.length) := by
+  obtain ⟨s', rels', ret, h, f, k⟩ := arrange_keep enc s hs hsm rels hr
+  refine ⟨s', rels', ret, h, f.sec hs, f.small hsm, f.eqv, f.dlen, k.length, k.relsOk hr, ?_⟩
+  intro j r' hj
+  obtain ⟨r, h1, h2⟩ := k.getElem? j r' hj
+  exact ⟨r, h1, h2.eqv, h2.dlen⟩
+
+/-- what the queries need of an object: its stream is shorter than 4 GiB; every section — resident or not,
+    settled or not — has room for `size` bytes and the terminator in its buffer and is smaller than 4 GiB when
+    resident (`QSec`).  NOTHING about the contents of any buffer, nothing about the file. -/
+structure QInv (o : Obj) : Prop where
+  stream : o.stream.data.length < 4294967296
+  secs : ∀ b ∈ o.secs, QSec b
+
+/-- the loader invariant (C01) of an input shorter than 4 GiB gives `QInv` -/
+theorem qinv_of_objInv {o : Obj} {img : Bytes} (h : C01.ObjInv o img) (hlen : img.length < 4294967296) : QInv o :=
+  ⟨by rw [h.sdata]; exact hlen,
+   fun b hb d hd => ⟨(h.secs b hb).bufOk d hd, small_of_loaded (h.secs b hb) hlen d hd⟩⟩
+
+/-- **load_qinv**: `load` of ANY byte string shorter than 4 GiB establishes `QInv` -/
+theorem load_qinv (o : Obj) (img : Bytes) (kind : StreamKind) (isLazy : Bool) (r : LoadRes)
+    (hl : load o { data := img, kind := kind } isLazy = .ok r) (hlen : img.length < 4294967296) : QInv r.obj :=
+  qinv_of_objInv (C01.load_objInv o img kind isLazy r hl) hlen
+
+/-- `sections[i]->get_data()` : keeps `QInv`; the section it delivers is in the domain -/
+theorem settle_q {o : Obj} (h : QInv o) {i : Nat} {o1 : Obj} {b : SecBuf} (hs : TQ.settle o i = some (o1, b)) :
+    QInv o1 ∧ (Sec b ∧ Small b) ∧ o1.secs[i]? = some b ∧ o1.secs.length = o.secs.length ∧
+    (∀ j, SettledAt o j → SettledAt o1 j) := by
+  unfold TQ.settle at hs
+  cases hget : o.secs[i]? with
+  | none => rw [hget] at hs; cases hs
+  | some b0 =>
+    rw [hget] at hs
+    simp only [Option.some.injEq, Prod.mk.injEq] at hs
+    obtain ⟨rfl, rfl⟩ := hs
+    obtain ⟨q1, q2⟩ := secGetData_qsec o.cls o.trans { st := o.stream } b0 h.stream
+      (h.secs b0 (List.mem_of_getElem? hget))
+    have hi : i < o.secs.length := by
+      rcases Nat.lt_or_ge i o.secs.length with h' | h'
+      · exact h'
+      · rw [List.getElem?_eq_none h'] at hget; cases hget
+    refine ⟨⟨?_, ?_⟩, ⟨⟨secGetData_settled _ _ _ _, fun d hd => (q1 d hd).1⟩, fun d hd => (q1 d hd).2⟩, ?_, ?_, ?_⟩
+    · show (secGetData o.cls o.trans { st := o.stream } b0).1.st.data.length < 4294967296
+      rw [q2]; exact h.stream
+    · intro b' hb'
+      rcases C01.mem_set hb' with hb' | rfl
+      · exact h.secs b' hb'
+      · exact q1
+    · simp [List.getElem?_set, hi]
+    · simp
+    · intro j hj b hb
+      by_cases hij : i = j
+      · subst hij
+        simp only [List.getElem?_set, hi, if_true] at hb
+        simp only [Option.some.injEq] at hb
+        subst hb; exact secGetData_settled _ _ _ _
+      · simp only [List.getElem?_set, hij, if_false] at hb
+        exact hj b hb
+
+theorem sec_at_q {o : Obj} (h : QInv o) {j : Nat} (hj : SettledAt o j) {b : SecBuf} (hb : o.secs[j]? = some b) :
+    Sec b ∧ Small b :=
+  have hq := h.secs b (List.mem_of_getElem? hb)
+  ⟨⟨hj b hb, fun d hd => (hq d hd).1⟩, fun d hd => (hq d hd).2⟩
+
+theorem settleOpt_q {o : Obj} (h : QInv o) (i : Nat) :
+    QInv (TQ.settleOpt o i).1 ∧ (∀ b, (TQ.settleOpt o i).2 = some b → Sec b ∧ Small b) ∧
+    (TQ.settleOpt o i).1.secs.length = o.secs.length ∧
+    (∀ j, SettledAt o j → SettledAt (TQ.settleOpt o i).1 j) ∧
+    (i < o.secs.length → SettledAt (TQ.settleOpt o i).1 i) := by
+  unfold TQ.settleOpt
+  cases hs : TQ.settle o i with
+  | none =>
+    dsimp only
+    refine ⟨h, (fun b hb => by cases hb), rfl, fun j hj => hj, ?_⟩
+    intro hi
+    unfold TQ.settle at hs
+    rw [List.getElem?_eq_getElem hi] at hs
+    cases hs
+  | some r =>
+    obtain ⟨o1, b⟩ := r
+    dsimp only
+    obtain ⟨h1, h2, h5, h6, h7⟩ := settle_q h hs
+    refine ⟨h1, ?_, h6, h7, ?_⟩
+    · intro b' hb'
+      simp only [Option.some.injEq] at hb'
+      subst hb'
+      exact h2
+    · intro _ b' hb'
+      rw [h5] at hb'
+      simp only [Option.some.injEq] at hb'
+      subst hb'; exact h2.1.settled
+
+theorem settleAll_q :
+    ∀ (js : List Nat) (o : Obj), QInv o →
+      QInv (TQ.settleAll o js) ∧ (TQ.settleAll o js).secs.length = o.secs.length ∧
+      (∀ j, SettledAt o j → SettledAt (TQ.settleAll o js) j) ∧
+      (∀ j ∈ js, j < o.secs.length → SettledAt (TQ.settleAll o js) j) := by
+  intro js
+  induction js with
+  | nil => intro o h; exact ⟨h, rfl, fun j hj => hj, fun j hj => by cases hj⟩
+  | cons j js ih =>
+    intro o h
+    unfold TQ.settleAll
+    obtain ⟨h1, -, h3, h4, h5⟩ := settleOpt_q h j
+    obtain ⟨i1, i2, i3, i4⟩ := ih _ h1
+    refine ⟨i1, i2.trans h3, fun k hk => i3 k (h4 k hk), ?_⟩
+    intro k hk hlt
+    rcases List.mem_cons.mp hk with rfl | hk
+    · exact i3 _ (h5 hlt)
+    · exact i4 k hk (by rw [h3]; exact hlt)
+
+theorem symTabFor_q {o : Obj} (h : QInv o) {i : Nat} {o' : Obj} {t : SymTab}
+    (hs : TQ.symTabFor o i = some (o', t)) :
+    TabOk t ∧ (∀ hh, t.hash = some hh → Small hh) ∧ QInv o' := by
+  unfold TQ.symTabFor at hs
+  cases h1 : TQ.settle o i with
+  | none => rw [h1] at hs; cases hs
+  | some r =>
+    obtain ⟨o1, b⟩ := r
+    rw [h1] at hs
+    simp only [Option.some.injEq, Prod.mk.injEq] at hs
+    obtain ⟨rfl, rfl⟩ := hs
+    obtain ⟨i1, hb, -⟩ := settle_q h h1
+    obtain ⟨j1, j2, -⟩ := settleOpt_q i1 (tq_sym_strtab_index b.link).toNat
+    refine ⟨⟨hb.1, fun s hs => (j2 s hs).1, ?_⟩, ?_, ?_⟩
+    · intro s hs
+      dsimp only at hs
+      split at hs
+      · exact ((settleOpt_q j1 _).2.1 s hs).1
+      · cases hs
+    · intro s hs
+      dsimp only at hs
+      split at hs
+      · exact ((settleOpt_q j1 _).2.1 s hs).2
+      · cases hs
+    · split
+      · exact (settleOpt_q j1 _).1
+      · exact j1
+
+theorem liftQ_q {α : Type} {o : Obj} {x : M α} (f : α → TQ.Out) (hq : QInv o) (h : ∃ a, x = .ok a) :
+    ∃ o' out, TQ.liftQ o x f = .ok (o', out) ∧ QInv o' := by
+  obtain ⟨a, rfl⟩ := h
+  exact ⟨o, f a, rfl, hq⟩
+
+/-- **runQuery_qinv**: on an object with `QInv` EVERY query — read-only or mutating, any section index, entry
+    index, name, value, entry count — returns, and the object it leaves has `QInv` again -/
+theorem runQuery_qinv (o : Obj) (h : QInv o) (q : TQ.Query) :
+    ∃ o' out, TQ.runQuery o q = .ok (o', out) ∧ QInv o' := by
+  cases q with
+  | relGet i k =>
+    simp only [TQ.runQuery]
+    cases hs : TQ.settle o i with
+    | none => exact ⟨_, _, rfl, h⟩
+    | some r =>
+      obtain ⟨h1, hb, -⟩ := settle_q h (o1 := r.1) (b := r.2) (by rw [hs])
+      exact liftQ_q _ h1 (reloc_get_total _ _ hb.1 _)
+  | relGetResolved i k =>
+    simp only [TQ.runQuery]
+    cases hs : TQ.settle o i with
+    | none => exact ⟨_, _, rfl, h⟩
+    | some r =>
+      obtain ⟨o1, b⟩ := r
+      dsimp only
+      obtain ⟨i1, hb, -⟩ := settle_q h hs
+      cases ht : TQ.symTabFor o1 (TQ.relSymtabIndex b) with
+      | none =>
+        exact liftQ_q _ i1 (reloc_get_resolved_total _ _ hb.1 none (fun t ht => by cases ht) _)
+      | some r2 =>
+        have hk := symTabFor_q i1 (o' := r2.1) (t := r2.2) (by rw [ht])
+        exact liftQ_q _ hk.2.2 (reloc_get_resolved_total _ _ hb.1 (some r2.2)
+          (fun t ht' => by simp only [Option.some.injEq] at ht'; subst ht'; exact hk.1) _)
+  | symByName i name =>
+    simp only [TQ.runQuery]
+    cases ht : TQ.symTabFor o i with
+    | none => exact ⟨_, _, rfl, h⟩
+    | some r =>
+      have hk := symTabFor_q h (o' := r.1) (t := r.2) (by rw [ht])
+      exact liftQ_q _ hk.2.2 (sym_by_name_total _ hk.1 hk.2.1 _ _)
+  | symByValue i v =>
+    simp only [TQ.runQuery]
+    cases ht : TQ.symTabFor o i with
+    | none => exact ⟨_, _, rfl, h⟩
+    | some r =>
+      have hk := symTabFor_q h (o' := r.1) (t := r.2) (by rw [ht])
+      exact liftQ_q _ hk.2.2 (sym_by_value_total _ hk.1 _ _ _)
+  | arrGet w i k =>
+    simp only [TQ.runQuery]
+    cases hs : TQ.settle o i with
+    | none => exact ⟨_, _, rfl, h⟩
+    | some r =>
+      obtain ⟨h1, hb, -⟩ := settle_q h (o1 := r.1) (b := r.2) (by rw [hs])
+      exact liftQ_q _ h1 (array_get_total _ _ _ hb.1 _)
+  | versymGet i k =>
+    simp only [TQ.runQuery]
+    cases hs : TQ.settle o i with
+    | none => exact ⟨_, _, rfl, h⟩
+    | some r =>
+      obtain ⟨h1, hb, -⟩ := settle_q h (o1 := r.1) (b := r.2) (by rw [hs])
+      exact liftQ_q _ h1 (versym_get_total _ hb.1 _)
+  | needGet i num k =>
+    simp only [TQ.runQuery]
+    cases hs : TQ.settle o i with
+    | none => exact ⟨_, _, rfl, h⟩
+    | some r =>
+      obtain ⟨h1, hb, -⟩ := settle_q h (o1 := r.1) (b := r.2) (by rw [hs])
+      exact liftQ_q _ (settleOpt_q h1 _).1 (verneed_get_total _ _ hb.1 _ _ _)
+  | defGet i num k =>
+    simp only [TQ.runQuery]
+    cases hs : TQ.settle o i with
+    | none => exact ⟨_, _, rfl, h⟩
+    | some r =>
+      obtain ⟨h1, hb, -⟩ := settle_q h (o1 := r.1) (b := r.2) (by rw [hs])
+      exact liftQ_q _ (settleOpt_q h1 _).1 (verdef_get_total _ _ hb.1 _ _ _)
+  | arrange i =>
+    simp only [TQ.runQuery]
+    cases hs : TQ.settle o i with
+    | none => exact ⟨_, _, rfl, h⟩
+    | some r =>
+      obtain ⟨o1, b⟩ := r
+      dsimp only
+      obtain ⟨i1, i4, i5, i6, -⟩ := settle_q h hs
+      have hsi : SettledAt o1 i := by
+        intro b' hb'; rw [i5] at hb'; simp only [Option.some.injEq] at hb'; subst hb'; exact i4.1.settled
+      obtain ⟨a1, a2, a3, a4⟩ := settleAll_q (TQ.relsOf o1 i) o1 i1
+      cases hg : (TQ.settleAll o1 (TQ.relsOf o1 i)).secs[i]? with
+      | none => exact ⟨_, _, rfl, a1⟩
+      | some s =>
+        dsimp only
+        have hs' := sec_at_q a1 (a3 i hsi) hg
+        have hrels : ∀ r ∈ (TQ.relsOf o1 i).filterMap (fun j => (TQ.settleAll o1 (TQ.relsOf o1 i)).secs[j]?),
+            Sec r ∧ Small r := by
+          intro r hr
+          obtain ⟨j, hj, hjr⟩ := List.mem_filterMap.mp hr
+          have hjlt : j < o1.secs.length := by
+            rcases Nat.lt_or_ge j o1.secs.length with h' | h'
+            · exact h'
+            · rw [List.getElem?_eq_none (by rw [a2]; exact h')] at hjr; cases hjr
+          exact sec_at_q a1 (a4 j hj hjlt) hjr
+        obtain ⟨s', rels', ret, hres, f, kk⟩ := arrange_keep o.enc s hs'.1 hs'.2 _ hrels
+        rw [hres]
+        refine ⟨_, _, rfl, ⟨a1.stream, ?_⟩⟩
+        intro x hx
+        rcases mem_putAll _ _ _ _ hx with hx | hx
+        · rcases C01.mem_set hx with hx | rfl
+          · exact a1.secs x hx
+          · exact QSec.of_sec (f.sec hs'.1) (f.small hs'.2)
+        · have := kk.relsOk hrels x hx
+          exact QSec.of_sec this.1 this.2
+  | swap i first second =>
+    simp only [TQ.runQuery]
+    cases hs : TQ.settle o i with
+    | none => exact ⟨_, _, rfl, h⟩
+    | some r =>
+      obtain ⟨o1, b⟩ := r
+      dsimp only
+      obtain ⟨i1, hb, -⟩ := settle_q h hs
+      obtain ⟨b', hb', k⟩ := swapSymbols_keep o.enc b hb.1 hb.2 first second
+      rw [hb']
+      refine ⟨_, _, rfl, ⟨i1.stream, ?_⟩⟩
+      intro x hx
+      rcases C01.mem_set hx with hx | rfl
+      · exact i1.secs x hx
+      · exact QSec.of_sec k.sec (k.small hb.2)
+
+/-- ANY finite sequence of queries — mutating and read-only ones freely interleaved, arbitrary arguments — on an
+    object with `QInv` returns (every single query does) and leaves an object with `QInv` -/
+theorem runQueries_qinv : ∀ (qs : List TQ.Query) (o : Obj), QInv o →
+    ∃ o' outs, TQ.runQueries o qs = .ok (o', outs) ∧ outs.length = qs.length ∧ QInv o' := by
+  intro qs
+  induction qs with
+  | nil => intro o h; exact ⟨o, [], rfl, rfl, h⟩
+  | cons q qs ih =>
+    intro o h
+    unfold TQ.runQueries
+    obtain ⟨o1, out, hr, h1⟩ := runQuery_qinv o h q
+    rw [hr]
+    dsimp only
+    obtain ⟨o2, outs, h2, hl, h3⟩ := ih o1 h1
+    rw [h2]
+    exact ⟨_, _, rfl, by simp [hl], h3⟩
+
+/-- **queries_any_seq_total**: load ANY byte string shorter than 4 GiB — eagerly or lazily, from a string or file
+    stream, with any address translation table, into any previous object — and run ANY finite sequence of table
+    queries on the result, `arrange_local_symbols` / `swap_symbols` (which write into the symbol and relocation
+    sections) and the read-only queries freely interleaved, each with arbitrary section index, entry index, name,
+    value, entry count: every query of the sequence returns without a fault (no read or write outside a buffer, no
+    null dereference, no division by zero, no endless loop), one result per query, and the object is again in the
+    state (`QInv`) from which every further sequence returns -/
+theorem queries_any_seq_total (o : Obj) (img : Bytes) (kind : StreamKind) (isLazy : Bool) (r : LoadRes)
+    (hl : load o { data := img, kind := kind } isLazy = .ok r) (hlen : img.length < 4294967296)
+    (qs : List TQ.Query) :
+    ∃ o' outs, TQ.runQueries r.obj qs = .ok (o', outs) ∧ outs.length = qs.length ∧ QInv o' :=
+  runQueries_qinv qs r.obj (load_qinv o img kind isLazy r hl hlen)
+
+/-! ### … and no query touches the header side of the object -/
+
+/-- the header side of an object: class, byte order, translation table, ELF header, segments, the NUMBER of sections
+    and, position by position, every section's header fields other than `sh_info` (type, size, entry size, link,
+    flags, address, offset, alignment, name, index, recorded stream size, lazy flag) -/
+structure ObjHdr (o' o : Obj) : Prop where
+  cls : o'.cls = o.cls
+  enc : o'.enc = o.enc
+  tr : o'.trans = o.trans
+  hdr : o'.hdr = o.hdr
+  segs : o'.segs = o.segs
+  len : o'.secs.length = o.secs.length
+  secs : ∀ (j : Nat) (b' : SecBuf), o'.secs[j]? = some b' → ∃ b, o.secs[j]? = some b ∧ HdrI b' b
+
+theorem ObjHdr.refl (o : Obj) : ObjHdr o o := ⟨rfl, rfl, rfl, rfl, rfl, rfl, fun _ b' h => ⟨b', h, rfl⟩⟩
+
+theorem ObjHdr.comp {a b c : Obj} (h1 : ObjHdr a b) (h2 : ObjHdr b c) : ObjHdr a c :=
+  ⟨h1.cls.trans h2.cls, h1.enc.trans h2.enc, h1.tr.trans h2.tr, h1.hdr.trans h2.hdr, h1.segs.trans h2.segs,
+   h1.len.trans h2.len, fun j x hx => by
+    obtain ⟨y, hy, e1⟩ := h1.secs j x hx
+    obtain ⟨z, hz, e2⟩ := h2.secs j y hy
+    exact ⟨z, hz, Eq.trans e1 e2⟩⟩
+
+/-- replacing section `i` by one with the same header fields -/
+theorem objHdr_set (o : Obj) (i : Nat) (b0 x : SecBuf) (st : IStream) (hget : o.secs[i]? = some b0) (hx : HdrI x b0) :
+    ObjHdr { o with secs := o.secs.set i x, stream := st } o := by
+  refine ⟨rfl, rfl, rfl, rfl, rfl, by simp, ?_⟩
+  intro j b' hb'
+  simp only [List.getElem?_set] at hb'
+  split at hb'
+  · split at hb'
+    · rename_i hij _
+      simp only [Option.some.injEq] at hb'
+      subst hb'; subst hij
+      exact ⟨b0, hget, hx⟩
+    · cases hb'
+  · exact ⟨b', hb', rfl⟩
+
+theorem settle_hdr {o : Obj} {i : Nat} {o1 : Obj} {b : SecBuf} (hs : TQ.settle o i = some (o1, b)) : ObjHdr o1 o := by
+  unfold TQ.settle at hs
+  cases hget : o.secs[i]? with
+  | none => rw [hget] at hs; cases hs
+  | some b0 =>
+    rw [hget] at hs
+    simp only [Option.some.injEq, Prod.mk.injEq] at hs
+    obtain ⟨rfl, rfl⟩ := hs
+    exact objHdr_set o i b0 _ _ hget (secGetData_hdr _ _ _ _)
+
+theorem settleOpt_hdr (o : Obj) (i : Nat) : ObjHdr (TQ.settleOpt o i).1 o := by
+  unfold TQ.settleOpt
+  cases hs : TQ.settle o i with
+  | none => exact ObjHdr.refl o
+  | some r => exact settle_hdr (o1 := r.1) (b := r.2) (by rw [hs])
+
+theorem settleAll_hdr : ∀ (js : List Nat) (o : Obj), ObjHdr (TQ.settleAll o js) o := by
+  intro js
+  induction js with
+  | nil => intro o; exact ObjHdr.refl o
+  | cons j js ih => intro o; unfold TQ.settleAll; exact (ih _).comp (settleOpt_hdr o j)
+
+theorem symTabFor_hdr {o : Obj} {i : Nat} {o' : Obj} {t : SymTab} (hs : TQ.symTabFor o i = some (o', t)) :
+    ObjHdr o' o := by
+  unfold TQ.symTabFor at hs
+  cases h1 : TQ.settle o i with
+  | none => rw [h1] at hs; cases hs
+  | some r =>
+    obtain ⟨o1, b⟩ := r
+    rw [h1] at hs
+    simp only [Option.some.injEq, Prod.mk.injEq] at hs
+    obtain ⟨rfl, rfl⟩ := hs
+    have e1 := settle_hdr h1
+    have e2 := settleOpt_hdr o1 (tq_sym_strtab_index b.link).toNat
+    split
+    · exact ((settleOpt_hdr _ _).comp e2).comp e1
+    · exact e2.comp e1
+
+/-- **runQuery_hdr**: NO query — `arrange` and `swap` included — changes the class, byte order, translation table,
+    ELF header, segments or number of sections of the object, or any header field other than `sh_info` of any
+    section (sizes, entry sizes, types, flags, links stay what the file said): the queries only make sections
+    resident, and the mutating ones overwrite buffer contents in place and set `sh_info` -/
+theorem runQuery_hdr (o : Obj) (h : QInv o) (q : TQ.Query) {o' : Obj} {out : TQ.Out}
+    (hr : TQ.runQuery o q = .ok (o', out)) : ObjHdr o' o := by
+  have hnull : ∀ {x : Obj × TQ.Out}, (pure x : M (Obj × TQ.Out)) = .ok (o', out) → x.1 = o' := by
+    intro x hx
+    simp only [pure, Except.pure, Except.ok.injEq] at hx
+    rw [hx]
+  cases q with
+  | relGet i k =>
+    simp only [TQ.runQuery] at hr
+    cases hs : TQ.settle o i with
+    | none => rw [hs] at hr; rw [← hnull hr]; exact ObjHdr.refl o
+    | some r => rw [hs] at hr; rw [liftQ_obj hr]; exact settle_hdr (o1 := r.1) (b := r.2) (by rw [hs])
+  | relGetResolved i k =>
+    simp only [TQ.runQuery] at hr
+    cases hs : TQ.settle o i with
+    | none => rw [hs] at hr; rw [← hnull hr]; exact ObjHdr.refl o
+    | some r =>
+      obtain ⟨o1, b⟩ := r
+      rw [hs] at hr
+      dsimp only at hr
+      cases ht : TQ.symTabFor o1 (TQ.relSymtabIndex b) with
+      | none => rw [ht] at hr; rw [liftQ_obj hr]; exact settle_hdr hs
+      | some r2 =>
+        rw [ht] at hr; rw [liftQ_obj hr]
+        exact (symTabFor_hdr (o' := r2.1) (t := r2.2) (by rw [ht])).comp (settle_hdr hs)
+  | symByName i name =>
+    simp only [TQ.runQuery] at hr
+    cases ht : TQ.symTabFor o i with
+    | none => rw [ht] at hr; rw [← hnull hr]; exact ObjHdr.refl o
+    | some r => rw [ht] at hr; rw [liftQ_obj hr]; exact symTabFor_hdr (o' := r.1) (t := r.2) (by rw [ht])
+  | symByValue i v =>
+    simp only [TQ.runQuery] at hr
+    cases ht : TQ.symTabFor o i with
+    | none => rw [ht] at hr; rw [← hnull hr]; exact ObjHdr.refl o
+    | some r => rw [ht] at hr; rw [liftQ_obj hr]; exact symTabFor_hdr (o' := r.1) (t := r.2) (by rw [ht])
+  | arrGet w i k =>
+    simp only [TQ.runQuery] at hr
+    cases hs : TQ.settle o i with
+    | none => rw [hs] at hr; rw [← hnull hr]; exact ObjHdr.refl o
+    | some r => rw [hs] at hr; rw [liftQ_obj hr]; exact settle_hdr (o1 := r.1) (b := r.2) (by rw [hs])
+  | versymGet i k =>
+    simp only [TQ.runQuery] at hr
+    cases hs : TQ.settle o i with
+    | none => rw [hs] at hr; rw [← hnull hr]; exact ObjHdr.refl o
+    | some r => rw [hs] at hr; rw [liftQ_obj hr]; exact settle_hdr (o1 := r.1) (b := r.2) (by rw [hs])
+  | needGet i num k =>
+    simp only [TQ.runQuery] at hr
+    cases hs : TQ.settle o i with
+    | none => rw [hs] at hr; rw [← hnull hr]; exact ObjHdr.refl o
+    | some r =>
+      rw [hs] at hr; rw [liftQ_obj hr]
+      exact (settleOpt_hdr _ _).comp (settle_hdr (o1 := r.1) (b := r.2) (by rw [hs]))
+  | defGet i num k =>
+    simp only [TQ.runQuery] at hr
+    cases hs : TQ.settle o i with
+    | none => rw [hs] at hr; rw [← hnull hr]; exact ObjHdr.refl o
+    | some r =>
+      rw [hs] at hr; rw [liftQ_obj hr]
+      exact (settleOpt_hdr _ _).comp (settle_hdr (o1 := r.1) (b := r.2) (by rw [hs]))
+  | arrange i =>
+    simp only [TQ.runQuery] at hr
+    cases hs : TQ.settle o i with
+    | none => rw [hs] at hr; rw [← hnull hr]; exact ObjHdr.refl o
+    | some r =>
+      obtain ⟨o1, b⟩ := r
+      rw [hs] at hr
+      dsimp only at hr
+      obtain ⟨i1, i4, i5, i6, -⟩ := settle_q h hs
+      have hsi : SettledAt o1 i := by
+        intro b' hb'; rw [i5] at hb'; simp only [Option.some.injEq] at hb'; subst hb'; exact i4.1.settled
+      obtain ⟨a1, a2, a3, a4⟩ := settleAll_q (TQ.relsOf o1 i) o1 i1
+      have e12 := (settleAll_hdr (TQ.relsOf o1 i) o1).comp (settle_hdr hs)
+      cases hg : (TQ.settleAll o1 (TQ.relsOf o1 i)).secs[i]? with
+      | none => rw [hg] at hr; rw [← hnull hr]; exact e12
+      | some s =>
+        rw [hg] at hr
+        dsimp only at hr
+        have hs' := sec_at_q a1 (a3 i hsi) hg
+        have hrels : ∀ r ∈ (TQ.relsOf o1 i).filterMap (fun j => (TQ.settleAll o1 (TQ.relsOf o1 i)).secs[j]?),
+            Sec r ∧ Small r := by
+          intro r hr
+          obtain ⟨j, hj, hjr⟩ := List.mem_filterMap.mp hr
+          have hjlt : j < o1.secs.length := by
+            rcases Nat.lt_or_ge j o1.secs.length with h' | h'
+            · exact h'
+            · rw [List.getElem?_eq_none (by rw [a2]; exact h')] at hjr; cases hjr
+          exact sec_at_q a1 (a4 j hj hjlt) hjr
+        obtain ⟨s', rels', ret, hres, f, kk⟩ := arrange_keep o.enc s hs'.1 hs'.2 _ hrels
+        rw [hres] at hr
+        rw [← hnull hr]
+        refine ObjHdr.comp ?_ e12
+        refine ⟨rfl, rfl, rfl, rfl, rfl, by simp [length_putAll], ?_⟩
+        refine putAll_hdr _ _ (fun j hj => by rw [a2]; exact relsOf_lt o1 i j hj) _ kk _ ?_
+        intro j b' hb'
+        simp only [List.getElem?_set] at hb'
+        split at hb'
+        · split at hb'
+          · rename_i hij _
+            simp only [Option.some.injEq] at hb'
+            subst hb'; subst hij
+            exact ⟨s, hg, f.hdrI⟩
+          · cases hb'
+        · exact ⟨b', hb', rfl⟩
+  | swap i first second =>
+    simp only [TQ.runQuery] at hr
+    cases hs : TQ.settle o i with
+    | none => rw [hs] at hr; rw [← hnull hr]; exact ObjHdr.refl o
+    | some r =>
+      obtain ⟨o1, b⟩ := r
+      rw [hs] at hr
+      dsimp only at hr
+      obtain ⟨i1, hb, i5, -⟩ := settle_q h hs
+      obtain ⟨b', hb', k⟩ := swapSymbols_keep o.enc b hb.1 hb.2 first second
+      rw [hb'] at hr
+      rw [← hnull hr]
+      exact (objHdr_set o1 i b b' o1.stream i5 k.frame.hdrI).comp (settle_hdr hs)
+
+/-- **runQueries_hdr**: … nor does any finite sequence of queries -/
+theorem runQueries_hdr : ∀ (qs : List TQ.Query) (o : Obj), QInv o → ∀ {o' : Obj} {outs : List TQ.Out},
+    TQ.runQueries o qs = .ok (o', outs) → ObjHdr o' o := by
+  intro qs
+  induction qs with
+  | nil =>
+    intro o _ o' outs hr
+    simp only [TQ.runQueries, pure, Except.pure, Except.ok.injEq, Prod.mk.injEq] at hr
+    rw [← hr.1]; exact ObjHdr.refl o
+  | cons q qs ih =>
+    intro o h o' outs hr
+    unfold TQ.runQueries at hr
+    obtain ⟨o1, out, hq, h1⟩ := runQuery_qinv o h q
+    rw [hq] at hr
+    dsimp only at hr
+    obtain ⟨o2, outs2, h2, -, -⟩ := runQueries_qinv qs o1 h1
+    rw [h2] at hr
+    simp only [pure, Except.pure, Except.ok.injEq, Prod.mk.injEq] at hr
+    rw [← hr.1]
+    exact (ih o1 h1 h2).comp (runQuery_hdr o h q hq)
+
+/-- **dynNum_qinv**: what the driver does between queries besides `get_data()` (`settle_q`, `settle_hdr`): reading
+    `DT_VERNEEDNUM` / `DT_VERDEFNUM` the way the version accessors' constructors do (C12's dynamic accessor model on the
+    section named `.dynamic` and its string section) returns on every object with `QInv` — also after mutating
+    queries wrote into those sections — and keeps `QInv` and the header side -/
+theorem dynNum_qinv (o : Obj) (h : QInv o) (need : Bool) :
+    ∃ o' v, TQ.dynNum o need = .ok (o', v) ∧ QInv o' ∧ ObjHdr o' o := by
+  have hnone : ∃ o' v, TQ.liftQN o (TQ.verCount need none) = .ok (o', v) ∧ QInv o' ∧ ObjHdr o' o := by
+    obtain ⟨v, hv⟩ := verCount_total need none (fun a ha => by cases ha)
+    rw [hv]; exact ⟨o, v, rfl, h, ObjHdr.refl o⟩
+  unfold TQ.dynNum
+  dsimp only
+  split
+  · exact hnone
+  · rename_i di _
+    cases hs : TQ.settle o di with
+    | none => exact hnone
+    | some r =>
+      obtain ⟨o1, d⟩ := r
+      dsimp only
+      obtain ⟨i1, hd, -⟩ := settle_q h hs
+      obtain ⟨j1, j2, -⟩ := settleOpt_q i1 (dyn_strtab_index d.link).toNat
+      have e2 := settleOpt_hdr o1 (dyn_strtab_index d.link).toNat
+      generalize TQ.settleOpt o1 (dyn_strtab_index d.link).toNat = r2 at j1 j2 e2 ⊢
+      have hready : Inspect.DynReady { cfg := ⟨r2.1.cls, r2.1.enc⟩, sec := d, str := r2.2 } :=
+        ⟨hd.1.settled, hd.1.buf, fun s hs' => ⟨(j2 s hs').1.settled, (j2 s hs').1.buf⟩, by simp⟩
+      obtain ⟨v, hv⟩ := verCount_total need (some _) (fun a ha => by
+        simp only [Option.some.injEq] at ha; subst ha; exact hready)
+      rw [hv]
+      exact ⟨_, v, rfl, j1, e2.comp (settle_hdr hs)⟩
+
+/-- **queries_any_seq_hdr**: on the object a load yields, after ANY finite sequence of queries (mutating ones
+    included) every section still has the header fields — type, size, entry size, link, flags, … all but `sh_info` —
+    it had after the load, and there are as many sections -/
+theorem queries_any_seq_hdr (o : Obj) (img : Bytes) (kind : StreamKind) (isLazy : Bool) (r : LoadRes)
+    (hl : load o { data := img, kind := kind } isLazy = .ok r) (hlen : img.length < 4294967296)
+    (qs : List TQ.Query) {o' : Obj} {outs : List TQ.Out} (hr : TQ.runQueries r.obj qs = .ok (o', outs)) :
+    ObjHdr o' r.obj :=
+  runQueries_hdr qs r.obj (load_qinv o img kind isLazy r hl hlen) hr
+
+/-! ### everything the driver / harness do with the object between `load` and the end of a case -/
+
+/-- one thing an op line of the C18 protocol does with the object: a query; a bare `sections[i]->get_data()` (the
+    `rel` / `arr32` / `arr64` / `versym` / `verneed` / `verdef` ops print an entry count first); the construction of a
+    version accessor, which reads `DT_VERNEEDNUM` / `DT_VERDEFNUM` from `.dynamic` -/
+inductive Step
+  | query (q : TQ.Query)
+  | getData (i : Nat)
+  | verCount (need : Bool)
+
+def runStep (o : Obj) : Step → M Obj
+  | .query q =>
+    match TQ.runQuery o q with
+    | .error e => .error e
+    | .ok r => pure r.1
+  | .getData i => pure (TQ.settleOpt o i).1
+  | .verCount need =>
+    match TQ.dynNum o need with
+    | .error e => .error e
+    | .ok r => pure r.1
+
+def runSteps (o : Obj) : List Step → M Obj
+  | [] => pure o
+  | s :: ss =>
+    match runStep o s with
+    | .error e => .error e
+    | .ok o1 => runSteps o1 ss
+
+theorem runStep_qinv (o : Obj) (h : QInv o) (s : Step) : ∃ o', runStep o s = .ok o' ∧ QInv o' ∧ ObjHdr o' o := by
+  cases s with
+  | query q =>
+    obtain ⟨o', out, hr, hq⟩ := runQuery_qinv o h q
+    simp only [runStep, hr]
+    exact ⟨o', rfl, hq, runQuery_hdr o h q hr⟩
+  | getData i => exact ⟨_, rfl, (settleOpt_q h i).1, settleOpt_hdr o i⟩
+  | verCount need =>
+    obtain ⟨o', v, hr, hq, hh⟩ := dynNum_qinv o h need
+    simp only [runStep, hr]
+    exact ⟨o', rfl, hq, hh⟩
+
+theorem runSteps_qinv : ∀ (ss : List Step) (o : Obj), QInv o → ∃ o', runSteps o ss = .ok o' ∧ QInv o' ∧ ObjHdr o' o := by
+  intro ss
+  induction ss with
+  | nil => intro o h; exact ⟨o, rfl, h, ObjHdr.refl o⟩
+  | cons s ss ih =>
+    intro o h
+    unfold runSteps
+    obtain ⟨o1, h1, q1, e1⟩ := runStep_qinv o h s
+    rw [h1]
+    obtain ⟨o2, h2, q2, e2⟩ := ih o1 q1
+    exact ⟨o2, h2, q2, e2.comp e1⟩
+
+/-- **steps_any_seq_total**: `queries_any_seq_total` for everything an op line does: after a load of ANY byte string
+    shorter than 4 GiB, ANY finite sequence of queries (mutating or not), bare `get_data()` calls and version accessor
+    constructions, with arbitrary arguments, returns without fault; `QInv` holds at the end and no header field
+    (other than `sh_info`) of any section has changed -/
+theorem steps_any_seq_total (o : Obj) (img : Bytes) (kind : StreamKind) (isLazy : Bool) (r : LoadRes)
+    (hl : load o { data := img, kind := kind } isLazy = .ok r) (hlen : img.length < 4294967296) (ss : List Step) :
+    ∃ o', runSteps r.obj ss = .ok o' ∧ QInv o' ∧ ObjHdr o' r.obj :=
+  runSteps_qinv ss r.obj (load_qinv o img kind isLazy r hl hlen)
+
 /-! ### the findings, machine-checked on the models of the unfixed functions -/
 
 /-- 0 = no fault; otherwise the kind of fault -/
@@ -599,6 +1251,67 @@ example :
       faultKind (TQ.runQuery r.obj (.symByName 1 [0x61]))) = some 0 := by decide
 set_option maxRecDepth 100000 in
 example : C01.img208.length < 4294967296 := by decide
+
+/-! ### non-vacuity of the sequence theorems: queries after `arrange` / `swap` -/
+
+/-- an ELF64/LSB object whose section 1 is C10's three-symbol table (null, a GLOBAL, a LOCAL: `arrange` has to
+    exchange records 1 and 2) and whose section 2 is its `Elf64_Rela` table (two entries naming symbols 1 and 2,
+    `sh_link = 1`: the callback rewrites both); section 0 is the null section without data -/
+def exObj : Obj :=
+  { cls := .c64, enc := .lsb,
+    secs := [wnodata .c64 SHT_NULL 0 0, { C10.exSec with index := 1 }, { C10.exRel with index := 2, link := 1 }] }
+
+/-- what the examples look at in a result -/
+def outNat : TQ.Out → List Nat
+  | .rel (some e) => [e.offset.toNat, e.symbol.toNat]
+  | .arranged r => [r.toNat]
+  | .byValue r => [if r.1 then 1 else 0, r.2.2.bind.toNat]
+  | .resolved r => [if r.ret then 1 else 0, r.symValue.toNat]
+  | .swapped => [99]
+  | _ => []
+
+/- the hypotheses of `swap_preserves_sec` / `arrange_preserves_sec` / `runQuery_qinv` / `runQueries_qinv` -/
+example : Sec C10.exSec ∧ Small C10.exSec :=
+  ⟨⟨by decide, fun d hd => by cases hd; decide⟩, fun d hd => by cases hd; decide⟩
+example : ∀ r ∈ [C10.exRel], Sec r ∧ Small r := by
+  intro r hr
+  simp only [List.mem_cons, List.not_mem_nil, or_false] at hr
+  subst hr
+  exact ⟨⟨by decide, fun d hd => by cases hd; decide⟩, fun d hd => by cases hd; decide⟩
+example : QInv exObj := ⟨by decide, fun b hb d hd => by
+  simp only [exObj, List.mem_cons, List.not_mem_nil, or_false] at hb
+  rcases hb with rfl | rfl | rfl <;> cases hd <;> decide⟩
+
+/- a sequence with queries AFTER the mutating ones: entry 0 names symbol 1; `arrange 1` returns 2 (records 1 and 2
+   exchanged); now entry 0 names symbol 2 and entry 1 symbol 1; the symbol with value 0x0707… is found (GLOBAL) at its
+   new place; `swap 2 1 2` undoes the renaming; the resolved read of entry 0 finds symbol 1 = now the LOCAL (value
+   0x0909…); arranging again, arranging the RELOCATION section as if it were a symbol table, swapping in the SYMBOL
+   section as if it were a relocation table, a lookup by name, another arrange: everything returns -/
+set_option maxRecDepth 1000000 in
+example :
+    (TQ.runQueries exObj [.relGet 2 0, .arrange 1, .relGet 2 0, .relGet 2 1, .symByValue 1 0x0707070707070707,
+       .swap 2 1 2, .relGet 2 0, .relGetResolved 2 0, .arrange 1, .arrange 2, .swap 1 0 1, .symByName 1 [0x61],
+       .arrange 1]).toOption.map (fun r => r.2.map outNat)
+    = some [[16, 1], [2], [16, 2], [32, 1], [1, 1], [99], [16, 1], [1, 651061555542690057], [2], [2], [99], [], [2]] := by
+  decide
+
+/- `queries_any_seq_total` on C01's 208-byte image, loaded lazily: `arrange` and `swap` on the string table section
+   (as a symbol / relocation table), then lookups on the same section, then `arrange` on the null section and on a
+   section that does not exist -/
+set_option maxRecDepth 1000000 in
+example :
+    (load {} { data := C01.img208 } true).toOption.map (fun r =>
+      (TQ.runQueries r.obj [.arrange 1, .swap 1 0 1, .symByName 1 [0x61], .relGetResolved 1 0, .arrange 0,
+        .arrange 7]).toOption.map (fun r => r.2.map outNat))
+    = some (some [[1], [99], [], [0, 0], [0], []]) := by decide
+
+/- … and with the other things an op line does in between (on this object there is no `.dynamic`: the version
+   accessors' constructors find the count 0) -/
+set_option maxRecDepth 1000000 in
+example :
+    (runSteps exObj [.getData 2, .query (.arrange 1), .verCount true, .getData 1, .query (.relGet 2 0),
+       .verCount false, .query (.swap 2 1 2), .getData 9]).toOption.map (fun o => o.secs.map (·.info.toNat))
+    = some [0, 2, 0] := by decide
 
 end C18
 end ElfioVerif
